@@ -9,22 +9,57 @@ import (
 )
 
 func createLockFile(name string, perm os.FileMode) (LockFile, bool, error) {
-	acquiredExisting := false
-	verifLockYield("stat")
-	if _, err := os.Stat(name); err == nil {
-		acquiredExisting = true
-	}
-	verifLockYield("open")
-	f, err := os.OpenFile(name, os.O_RDWR|os.O_CREATE, perm)
-	if err != nil {
-		return nil, false, err
-	}
-	verifLockYield("flock")
-	if err := syscall.Flock(int(f.Fd()), syscall.LOCK_EX|syscall.LOCK_NB); err != nil {
-		if err == syscall.EWOULDBLOCK {
-			err = os.ErrExist
+	for {
+		// Create the file exclusively to learn atomically whether it already existed.
+		acquiredExisting := false
+		verifLockYield("create")
+		f, err := os.OpenFile(name, os.O_RDWR|os.O_CREATE|os.O_EXCL, perm)
+		if os.IsExist(err) {
+			acquiredExisting = true
+			verifLockYield("open")
+			f, err = os.OpenFile(name, os.O_RDWR, perm)
+			if os.IsNotExist(err) {
+				// The owner removed the file in the meantime.
+				continue
+			}
 		}
-		return nil, false, err
+		if err != nil {
+			return nil, false, err
+		}
+		verifLockYield("flock")
+		if err := syscall.Flock(int(f.Fd()), syscall.LOCK_EX|syscall.LOCK_NB); err != nil {
+			_ = f.Close()
+			if err == syscall.EWOULDBLOCK {
+				err = os.ErrExist
+			}
+			return nil, false, err
+		}
+		// The previous owner removes the file before it releases the lock. A file opened
+		// before that and locked after it is not the lock file anymore: a lock held on it
+		// protects nothing. Make sure the path still names the locked file, start over otherwise.
+		verifLockYield("stat")
+		locked, err := f.Stat()
+		if err != nil {
+			_ = f.Close()
+			return nil, false, err
+		}
+		current, err := os.Stat(name)
+		if err == nil && os.SameFile(locked, current) {
+			// Every owner marks the lock file once it holds the lock. A file that was created
+			// above and is marked already was locked by another opener in between, and that
+			// owner did not close the database (closing removes the file).
+			if locked.Size() > 0 {
+				acquiredExisting = true
+			}
+			if _, err := f.WriteAt([]byte{1}, 0); err != nil {
+				_ = f.Close()
+				return nil, false, err
+			}
+			return &osLockFile{f, name}, acquiredExisting, nil
+		}
+		_ = f.Close()
+		if err != nil && !os.IsNotExist(err) {
+			return nil, false, err
+		}
 	}
-	return &osLockFile{f, name}, acquiredExisting, nil
 }
